@@ -361,8 +361,14 @@ class Compiler:
         base, code = wait(link_base["promise"]), wait(generated_code)
 
         # Resolve all symbols, in case some have not been used
-        for _, (_, value) in self.symbols.items():
-            wait(value)
+        for _, (symbol, value) in self.symbols.items():
+            try:
+                wait(value)
+            except DeferredCycle:
+                reports.error(
+                    "recursive-definition",
+                    (symbol.ctx_start, symbol.ctx_end, "The value of this symbol depends on itself and thus cannot be determined.")
+                )
 
         return base, code
 
